@@ -57,6 +57,13 @@ type c17SemObs struct {
 
 var c17SemTimeout = int64(20 * time.Second)
 
+func init() {
+	// replay / shrink runs happen only after a failure was found: do not wait 20 s per process there
+	if vfReplayOnly() {
+		atomic.StoreInt64(&c17SemTimeout, int64(3*time.Second))
+	}
+}
+
 func c17SemPoll(cond func() bool) bool {
 	start := time.Now()
 	for i := 0; ; i++ {
@@ -64,7 +71,7 @@ func c17SemPoll(cond func() bool) bool {
 			return true
 		}
 		if time.Since(start) > time.Duration(atomic.LoadInt64(&c17SemTimeout)) {
-			atomic.StoreInt64(&c17SemTimeout, int64(300*time.Millisecond))
+			atomic.StoreInt64(&c17SemTimeout, int64(100*time.Millisecond))
 			return false
 		}
 		if i < 200 {
@@ -148,6 +155,7 @@ func c17SemExec(in c17SemIn, emit func(c17SemStep)) (desync bool) {
 		prevLen := len(snap.Waiters)
 		if !c17SemPoll(func() bool { snap = s.VfC17Snapshot(); return snap.T() == T }) {
 			desync = true
+			T = snap.T() // go on from what the semaphore really holds
 		}
 		// shadow queue: acquire-like operations push at most one waiter, release-like pop a prefix
 		if push != 0 {
